@@ -14,7 +14,7 @@ def props_for(patch):
     b = os.path.basename(patch)
     if b == 'patch.diff':
         meta = json.load(open(os.path.join(os.path.dirname(patch), 'meta.json')))
-        p = meta['property']
+        p = meta.get('checked_by') or meta['property']
         return p if isinstance(p, list) else [p]
     return [b.split('_')[0]]
 
@@ -33,7 +33,7 @@ def run_one(patch, tests, tier, only=None):
         res = []
         for pid in (only or props_for(patch)):
             env = dict(os.environ, VERIF_REPO=d, VERIF_EVIDENCE_DIR=os.path.join(d, 'ev'), VERIF_REPLAY_DIR=os.path.join(d, 'rp'),
-                       VERIF_NPROC=os.environ.get('MUT_NPROC', '8'), VERIF_NO_SHRINK='1')
+                       VERIF_NPROC=os.environ.get('MUT_NPROC', '8'), VERIF_NO_SHRINK='1', VERIF_NO_REPLAY_CHECK='1')
             t0 = time.time()
             r = subprocess.run(['/venv/bin/python', os.path.join(V, 'check.py'), pid, tier], env=env, capture_output=True, text=True)
             clauses = sorted(set(l.split('clause=')[1].split()[0] for l in r.stdout.splitlines() if 'clause=' in l))
